@@ -5,6 +5,7 @@ Soundness restrictions (DESIGN.md A2/A3): globally unique task names, unique two
 two namespace-less paths to one pipeline, no quotes/separators in string parameter values (unless zone flag).
 """
 import copy
+import random
 from . import abstract as A
 from .. import values as V
 
@@ -222,7 +223,7 @@ def _gen_world(r, k):
             if not names:
                 break
             name = names.pop()
-            if cids and r.random() < 0.12 and ':' not in classes[cids[-1]]['slug']:
+            if cids and r.random() < 0.12 and ':' not in classes[cids[-1]]['slug'] and '__' not in classes[cids[-1]]['name'] and 'é' not in classes[cids[-1]]['name']:
                 # a task whose name extends the name of a sibling task (prefix-related names are distinct tasks)
                 ext = classes[cids[-1]]['name'] + '_x'
                 if all(c_['name'] != ext for c_ in classes):
@@ -253,6 +254,13 @@ def _gen_world(r, k):
             if r.random() < 0.2:
                 explicit_name = name
                 py = 'Cls' + camel(name)
+            elif '_' not in name and name not in ('grp', 'hh', 'gx') and random.Random(f'pyname:{name}:{pi}:{len(classes)}:{py}').random() < 0.08:
+                # class names in which a capital follows an underscore or a non-ASCII letter: the documented rule puts `_` in front of
+                # every capital but the first character ('Alfa_Q' -> 'alfa__q', 'AlfaéB' -> 'alfaé_b')
+                if len(name) % 2:
+                    py, name = camel(name) + '_Q', name + '__q'
+                else:
+                    py, name = camel(name) + 'éB', name + 'é_b'
             # documented naming rule: CamelCase -> snake_case, drop _task suffix, or Meta.name; group prefix
             if base == 'ModuleTask':
                 gname = f'p{pi}'
